@@ -111,8 +111,8 @@ Proof.
   apply N.eqb_eq in H1. apply N.eqb_eq in H2. subst. reflexivity.
 Qed.
 
-(* merge_ref_roundtrip: every legal spelling of a reference decodes to its corners *)
-Theorem merge_ref_roundtrip : forall st lower d,
+(* the round trip through Col26's model of the scanner (u32 arithmetic, panics on overflow) *)
+Lemma merge_ref_roundtrip_c26 : forall st lower d,
   dims_ok ROW_LIMIT COL_LIMIT d -> ref_style_legal st d = true ->
   get_dimension (render_ref st lower d) = Ok d.
 Proof.
@@ -131,6 +131,164 @@ Proof.
     - discriminate. }
   unfold render_ref. cbn [fst snd]. destruct lower; [rewrite get_dimension_lower|]; exact G.
 Qed.
+
+(* ------------------------------------------------------------------ the hardened scanner *)
+(* an outcome that is a value or an error: no panic, no fuel exhaustion *)
+Definition safe (A : Type) (o : outcome A) : Prop :=
+  match o with Ok _ | Err _ => True | Panic | OutOfFuel => False end.
+
+Lemma safe_bind : forall (A B : Type) (o : outcome A) (f : A -> outcome B),
+  safe o -> (forall a, safe (f a)) -> safe (obind o f).
+Proof. intros A B [a|e| |] f H F; cbn in *; auto. Qed.
+
+Lemma safe_not_panic : forall (A : Type) (o : outcome A), safe o -> o <> Panic /\ o <> OutOfFuel.
+Proof. intros A [a|e| |] H; cbn in H; try contradiction; split; discriminate. Qed.
+
+Lemma sat_add_small : forall a b, a + b <= U32MAX -> sat_add64 a b = a + b.
+Proof. intros a b H. unfold sat_add64. apply N.min_l. unfold U32MAX, U64MAX in *. lia. Qed.
+Lemma sat_mul_small : forall a b, a * b <= U32MAX -> sat_mul64 a b = a * b.
+Proof. intros a b H. unfold sat_mul64. apply N.min_l. unfold U32MAX, U64MAX in *. lia. Qed.
+
+Definition st_bounded (s : scan_state) : Prop := s_row s <= U32MAX /\ s_col s <= U32MAX.
+
+Lemma scan_letter_h_agrees : forall base c s s', st_bounded s ->
+  scan_letter base c s = Ok s' -> scan_letter_h base c s = Ok s' /\ st_bounded s'.
+Proof.
+  intros base c s s' [B1 B2] H. unfold scan_letter in H. unfold scan_letter_h.
+  destruct (s_readrow s).
+  - destruct (s_row s =? 0); [discriminate|]. cbn [obind s_row s_col s_pow] in *.
+    unfold mul32, add32 in H.
+    destruct ((c - base + 1) * 1 <=? U32MAX) eqn:E1; cbn [obind] in H; [|discriminate].
+    destruct (s_col s + (c - base + 1) * 1 <=? U32MAX) eqn:E2; cbn [obind] in H; [|discriminate].
+    destruct (1 * 26 <=? U32MAX) eqn:E3; cbn [obind] in H; [|discriminate].
+    apply N.leb_le in E1. apply N.leb_le in E2. apply N.leb_le in E3.
+    inversion H; subst. rewrite (sat_mul_small _ _ E1), (sat_add_small _ _ E2), (sat_mul_small _ _ E3).
+    split; [reflexivity|]. split; cbn [s_row s_col]; assumption.
+  - cbn [obind] in *. unfold mul32, add32 in H.
+    destruct ((c - base + 1) * s_pow s <=? U32MAX) eqn:E1; cbn [obind] in H; [|discriminate].
+    destruct (s_col s + (c - base + 1) * s_pow s <=? U32MAX) eqn:E2; cbn [obind] in H; [|discriminate].
+    destruct (s_pow s * 26 <=? U32MAX) eqn:E3; cbn [obind] in H; [|discriminate].
+    apply N.leb_le in E1. apply N.leb_le in E2. apply N.leb_le in E3.
+    inversion H; subst. rewrite (sat_mul_small _ _ E1), (sat_add_small _ _ E2), (sat_mul_small _ _ E3).
+    split; [reflexivity|]. split; cbn [s_row s_col]; assumption.
+Qed.
+
+Lemma scan_char_h_agrees : forall c s s', st_bounded s ->
+  scan_char c s = Ok s' -> scan_char_h c s = Ok s' /\ st_bounded s'.
+Proof.
+  intros c s s' B H. unfold scan_char in H. unfold scan_char_h.
+  destruct (is_digit c).
+  - destruct B as [B1 B2]. destruct (s_readrow s); [|discriminate].
+    unfold mul32, add32 in H.
+    destruct ((c - ch_0) * s_pow s <=? U32MAX) eqn:E1; cbn [obind] in H; [|discriminate].
+    destruct (s_row s + (c - ch_0) * s_pow s <=? U32MAX) eqn:E2; cbn [obind] in H; [|discriminate].
+    destruct (s_pow s * 10 <=? U32MAX) eqn:E3; cbn [obind] in H; [|discriminate].
+    apply N.leb_le in E1. apply N.leb_le in E2. apply N.leb_le in E3.
+    inversion H; subst. rewrite (sat_mul_small _ _ E1), (sat_add_small _ _ E2), (sat_mul_small _ _ E3).
+    split; [reflexivity|]. split; cbn [s_row s_col]; assumption.
+  - destruct (is_upper c); [apply scan_letter_h_agrees; assumption|].
+    destruct (is_lower c); [apply scan_letter_h_agrees; assumption|discriminate].
+Qed.
+
+Lemma scan_loop_h_agrees : forall rs s s', st_bounded s ->
+  scan_loop rs s = Ok s' -> scan_loop_h rs s = Ok s' /\ st_bounded s'.
+Proof.
+  induction rs as [|c rs IH]; intros s s' B H; cbn [scan_loop scan_loop_h] in *.
+  - inversion H; subst. auto.
+  - destruct (scan_char c s) as [s1| | |] eqn:E; cbn [obind] in H; try discriminate.
+    destruct (scan_char_h_agrees c B E) as [E' B']. rewrite E'. cbn [obind]. apply IH; assumption.
+Qed.
+
+Lemma get_row_column_h_agrees : forall p x, get_row_column p = Ok x -> get_row_column_h p = Ok x.
+Proof.
+  intros p x H. unfold get_row_column, get_row_and_optional_column in H.
+  unfold get_row_column_h, get_row_and_optional_column_h.
+  destruct (scan_loop (rev p) scan_init) as [s| | |] eqn:E; cbn [obind] in H; try discriminate.
+  assert (B0 : st_bounded scan_init) by (split; cbn; unfold U32MAX; lia).
+  destruct (scan_loop_h_agrees _ B0 E) as [E' [B1 B2]]. rewrite E'. cbn [obind].
+  destruct (s_row s =? 0); [discriminate|]. cbn [obind fst snd] in H.
+  destruct (N.ltb_spec U32MAX (s_row s - 1)); [lia|].
+  destruct (s_col s =? 0); cbn [obind fst snd] in *; [discriminate|].
+  destruct (N.ltb_spec U32MAX (s_col s - 1)); [lia|]. cbn [obind fst snd]. exact H.
+Qed.
+
+Lemma collect_parts_h_agrees : forall ps xs, collect_parts ps = Ok xs -> collect_parts_h ps = Ok xs.
+Proof.
+  induction ps as [|p ps IH]; intros xs H; cbn [collect_parts collect_parts_h] in *; [exact H|].
+  destruct (get_row_column p) as [x| | |] eqn:E; cbn [obind] in H; try discriminate.
+  rewrite (get_row_column_h_agrees _ E). cbn [obind].
+  destruct (collect_parts ps) as [ys| | |] eqn:E2; cbn [obind] in H; try discriminate.
+  rewrite (IH _ eq_refl). exact H.
+Qed.
+
+(* wherever Col26's model of get_dimension answers with a value, the hardened scanner gives the
+   same value *)
+Lemma get_dimension_h_agrees : forall s d, get_dimension s = Ok d -> get_dimension_h s = Ok d.
+Proof.
+  intros s d H. unfold get_dimension in H. unfold get_dimension_h.
+  destruct (collect_parts (split_on ch_colon s [])) as [parts| | |] eqn:E; cbn [obind] in H;
+    try discriminate.
+  rewrite (collect_parts_h_agrees _ E). cbn [obind].
+  destruct parts as [|p0 [|p1 [|p2 rest]]]; try exact H.
+  destruct (sub32 (fst p1) (fst p0)); cbn [obind] in H; try discriminate.
+  destruct (sub32 (snd p1) (snd p0)); cbn [obind] in H; try discriminate. exact H.
+Qed.
+
+(* merge_ref_roundtrip: every legal spelling of a reference decodes to its corners *)
+Theorem merge_ref_roundtrip : forall st lower d,
+  dims_ok ROW_LIMIT COL_LIMIT d -> ref_style_legal st d = true ->
+  get_dimension_h (render_ref st lower d) = Ok d.
+Proof.
+  intros st lower d H L. apply get_dimension_h_agrees. apply merge_ref_roundtrip_c26; assumption.
+Qed.
+
+(* the hardened scanner is total: no byte string makes it panic *)
+Lemma scan_char_h_safe : forall c s, safe (scan_char_h c s).
+Proof.
+  intros c s. unfold scan_char_h, scan_letter_h.
+  destruct (is_digit c); [destruct (s_readrow s); exact I|].
+  destruct (is_upper c); [destruct (s_readrow s); [destruct (s_row s =? 0)|]; exact I|].
+  destruct (is_lower c); [destruct (s_readrow s); [destruct (s_row s =? 0)|]; exact I|exact I].
+Qed.
+
+Lemma scan_loop_h_safe : forall rs s, safe (scan_loop_h rs s).
+Proof.
+  induction rs as [|c rs IH]; intros s; cbn [scan_loop_h]; [exact I|].
+  apply safe_bind; [apply scan_char_h_safe|intros a; apply IH].
+Qed.
+
+Lemma get_row_column_h_safe : forall p, safe (get_row_column_h p).
+Proof.
+  intros p. unfold get_row_column_h, get_row_and_optional_column_h.
+  apply safe_bind.
+  - apply safe_bind; [apply scan_loop_h_safe|]. intros s.
+    destruct (s_row s =? 0); [exact I|]. destruct (U32MAX <? s_row s - 1); [exact I|].
+    destruct (s_col s =? 0); [exact I|]. destruct (U32MAX <? s_col s - 1); exact I.
+  - intros [r [c|]]; exact I.
+Qed.
+
+Lemma collect_parts_h_safe : forall ps, safe (collect_parts_h ps).
+Proof.
+  induction ps as [|p ps IH]; cbn [collect_parts_h]; [exact I|].
+  apply safe_bind; [apply get_row_column_h_safe|]. intros x.
+  apply safe_bind; [exact IH|]. intros xs. exact I.
+Qed.
+
+Theorem get_dimension_h_safe : forall s, safe (get_dimension_h s).
+Proof.
+  intros s. unfold get_dimension_h. apply safe_bind; [apply collect_parts_h_safe|].
+  intros [|p0 [|p1 [|p2 rest]]]; exact I.
+Qed.
+
+(* a reversed reference (B2:A1) is accepted as written; 11-digit rows and 8-letter columns are
+   errors, not overflows *)
+Example hardened_scanner_examples :
+  get_dimension_h [66; 50; 58; 65; 49] = Ok ((1, 1), (0, 0)) /\
+  get_dimension [66; 50; 58; 65; 49] = Panic /\
+  get_dimension_h [65; 57; 57; 57; 57; 57; 57; 57; 57; 57; 57; 57] = Err E_OUT_OF_RANGE /\
+  get_dimension_h [65; 65; 65; 65; 65; 65; 65; 65; 49] = Err E_OUT_OF_RANGE /\
+  get_dimension_h [65; 52; 50; 57; 52; 57; 54; 55; 50; 57; 54] = Ok ((4294967295, 0), (4294967295, 0)).
+Proof. repeat split; vm_compute; reflexivity. Qed.
 
 Lemma dims_ok_weaken : forall R C R' C' d, R <= R' -> C <= C' -> dims_ok R C d -> dims_ok R' C' d.
 Proof. intros R C R' C' d HR HC (A & B & E & F). repeat split; lia. Qed.
@@ -1287,8 +1445,6 @@ Lemma pmc_loop_enc : forall todo done hd,
 Proof.
   induction todo as [|d todo IH]; intros done hd Hh Hn HD; [reflexivity|].
   cbn [length pmc_loop]. cbn [length] in Hn.
-  destruct (U16MAX <? 2 + N.of_nat (length done) * 8) eqn:OV;
-    [apply N.ltb_lt in OV; unfold U16MAX in OV; lia|].
   inversion HD as [|? ? (D1 & D2 & D3 & D4) HD']; subst.
   set (pre := hd ++ flat_map enc_ref8 done).
   assert (PL : N.to_nat (2 + N.of_nat (length done) * 8) = length pre).
@@ -1318,7 +1474,14 @@ Lemma parse_merge_cells_enc : forall ds,
   parse_merge_cells (snd (enc_mergecells ds)) = Ok ds.
 Proof.
   intros ds Hn HD. unfold parse_merge_cells, enc_mergecells. cbn [snd].
-  rewrite read_u16_le16 by lia. cbn [obind]. rewrite Nat2N.id.
+  assert (LEN : N.of_nat (length (le16 (N.of_nat (length ds)) ++ flat_map enc_ref8 ds)) =
+                2 + N.of_nat (length ds) * 8).
+  { rewrite app_length, flat_ref8_length. cbn [le16 length]. lia. }
+  rewrite LEN.
+  destruct (N.ltb_spec (2 + N.of_nat (length ds) * 8) 2); [lia|].
+  rewrite read_u16_le16 by lia. cbn [obind].
+  destruct (N.ltb_spec (2 + N.of_nat (length ds) * 8) (2 + N.of_nat (length ds) * 8)); [lia|].
+  rewrite Nat2N.id.
   apply (@pmc_loop_enc ds [] (le16 (N.of_nat (length ds)))); [reflexivity|cbn [length]; lia|exact HD].
 Qed.
 
@@ -1333,10 +1496,10 @@ Proof.
 Qed.
 
 Lemma pmc_fast_eq : forall todo i r,
-  pmc_loop todo i r = pmc_fast todo i (skipn (N.to_nat (2 + i * 8)) r).
+  pmc_loop todo i r = pmc_fast todo (skipn (N.to_nat (2 + i * 8)) r).
 Proof.
   induction todo as [|k IH]; intros i r; [reflexivity|].
-  cbn [pmc_loop pmc_fast]. destruct (U16MAX <? 2 + i * 8); [reflexivity|].
+  cbn [pmc_loop pmc_fast].
   set (off := N.to_nat (2 + i * 8)).
   destruct (Nat.ltb_spec (length r) off) as [SH|LG].
   - rewrite skipn_all2 by lia. unfold slice_from.
@@ -1359,8 +1522,31 @@ Qed.
 Theorem parse_merge_cells_fast_eq : forall r, parse_merge_cells_fast r = parse_merge_cells r.
 Proof.
   intros r. unfold parse_merge_cells_fast, parse_merge_cells.
-  destruct (read_u16 r); cbn [obind]; try reflexivity.
+  destruct (N.of_nat (length r) <? 2); [reflexivity|].
+  destruct (read_u16 r) as [count| | |]; cbn [obind]; try reflexivity.
+  destruct (N.of_nat (length r) <? 2 + count * 8); [reflexivity|].
   rewrite pmc_fast_eq. reflexivity.
+Qed.
+
+(* the two length checks make every slice and read_u16 of the loop succeed: no record data, of any
+   length and content, makes parse_merge_cells panic *)
+Lemma pmc_fast_ok : forall todo s, (8 * todo <= length s)%nat -> exists ds, pmc_fast todo s = Ok ds.
+Proof.
+  induction todo as [|k IH]; intros s H; [exists []; reflexivity|].
+  destruct s as [|a0 [|a1 [|b0 [|b1 [|c0 [|c1 [|d0 [|d1 s']]]]]]]]; cbn [length] in H; try lia.
+  destruct (IH s') as [ds E]; [lia|]. cbn [pmc_fast]. rewrite E. cbn [obind]. eexists. reflexivity.
+Qed.
+
+Theorem parse_merge_cells_safe : forall r, safe (parse_merge_cells r).
+Proof.
+  intros r. rewrite <- parse_merge_cells_fast_eq. unfold parse_merge_cells_fast.
+  destruct (N.ltb_spec (N.of_nat (length r)) 2) as [L1|L1]; [exact I|].
+  destruct r as [|a [|b r']]; cbn [length] in L1; try lia.
+  cbn [read_u16 obind].
+  destruct (N.ltb_spec (N.of_nat (length (a :: b :: r'))) (2 + (a + 256 * b) * 8)) as [L2|L2]; [exact I|].
+  cbn [skipn]. destruct (@pmc_fast_ok (N.to_nat (a + 256 * b)) r') as [ds E].
+  - cbn [length] in L2. lia.
+  - rewrite E. exact I.
 Qed.
 
 Lemma xls_sheet_merges_with_ext : forall f g, (forall r, f r = g r) ->
@@ -1485,11 +1671,26 @@ Proof.
   fold (xls_spec wb). apply map_get_nodup; [exact ND|]. apply nth_error_In with n. exact E.
 Qed.
 
-(* a MergeCells record shorter than its count announces panics (unchecked slices): C06 material,
-   predicted by the model *)
-Lemma parse_merge_cells_short_panics :
-  parse_merge_cells [1; 0; 0; 0; 1; 0; 0; 0; 1] = Panic /\ parse_merge_cells [1] = Panic.
-Proof. split; reflexivity. Qed.
+(* a MergeCells record shorter than its count announces is an error (c8fd2d5; it used to panic) *)
+Lemma parse_merge_cells_short_errs :
+  parse_merge_cells [1; 0; 0; 0; 1; 0; 0; 0; 1] = Err E_LEN /\ parse_merge_cells [1] = Err E_LEN /\
+  parse_merge_cells [] = Err E_LEN /\ parse_merge_cells [255; 255] = Err E_LEN.
+Proof. repeat split; reflexivity. Qed.
+
+Lemma xls_sheet_merges_safe : forall recs acc, safe (xls_sheet_merges recs acc).
+Proof.
+  unfold xls_sheet_merges. induction recs as [|[typ data] recs IH]; intros acc; [exact I|].
+  cbn [xls_sheet_merges_with]. destruct (typ =? REC_MERGECELLS).
+  - apply safe_bind; [apply parse_merge_cells_safe|]. intros ds. apply IH.
+  - destruct (typ =? REC_EOF); [exact I|apply IH].
+Qed.
+
+Theorem xls_sheets_safe : forall subs, safe (xls_sheets subs).
+Proof.
+  unfold xls_sheets. induction subs as [|[name recs] subs IH]; [exact I|].
+  cbn [xls_sheets_with]. apply safe_bind; [apply xls_sheet_merges_safe|]. intros ds.
+  apply safe_bind; [exact IH|]. intros rest. exact I.
+Qed.
 
 (* ================================================================== closing the premise *)
 Theorem table_geometry :
@@ -1542,6 +1743,181 @@ Proof.
   destruct (in_box _ _ q); [|reflexivity].
   f_equal. unfold cell_or. rewrite R4. destruct (in_rect r q); reflexivity.
 Qed.
+
+(* ================================================================== totality (no panic) *)
+(* xlsx merged regions: no event list makes the loops panic *)
+Theorem scan_merge_regions_safe : forall evs, safe (scan_merge_regions evs).
+Proof.
+  induction evs as [|e evs IH]; cbn [scan_merge_regions]; [exact I|].
+  destruct e as [n attrs|n|t|t]; try exact IH.
+  destruct (str_eqb (local_name n) s_mergeCell); [|exact IH].
+  destruct (first_attr attrs s_ref) as [v|]; [|exact IH].
+  apply safe_bind; [apply get_dimension_h_safe|]. intros d.
+  apply safe_bind; [exact IH|]. intros rest. exact I.
+Qed.
+
+Theorem read_merge_cells_safe : forall evs, safe (read_merge_cells evs).
+Proof.
+  induction evs as [|e evs IH]; cbn [read_merge_cells]; [exact I|].
+  destruct e as [n attrs|n|t|t]; try exact IH.
+  - destruct (str_eqb (local_name n) s_mergeCell); [|exact IH].
+    destruct (first_attr attrs s_ref) as [v|]; [|exact IH].
+    apply safe_bind; [apply get_dimension_h_safe|]. intros d.
+    apply safe_bind; [exact IH|]. intros rest. exact I.
+  - destruct (str_eqb (local_name n) s_mergeCells); [exact I|exact IH].
+Qed.
+
+Theorem find_merge_cells_safe : forall evs, safe (find_merge_cells evs).
+Proof.
+  induction evs as [|e evs IH]; cbn [find_merge_cells]; [exact I|].
+  destruct e as [n attrs|n|t|t]; try exact IH.
+  destruct (str_eqb (local_name n) s_mergeCells); [|exact IH].
+  pose proof (read_merge_cells_safe evs) as S.
+  destruct (read_merge_cells evs); cbn in S; try contradiction; exact I.
+Qed.
+
+Theorem read_merged_regions_safe : forall z sheets, safe (read_merged_regions z sheets).
+Proof.
+  intros z. induction sheets as [|[name path] sheets IH]; cbn [read_merged_regions]; [exact I|].
+  destruct (zip_find z path) as [evs|]; [|exact IH].
+  apply safe_bind; [apply scan_merge_regions_safe|]. intros ds.
+  apply safe_bind; [exact IH|]. intros rest. exact I.
+Qed.
+
+Theorem worksheet_merge_cells_safe : forall z sheets name o,
+  worksheet_merge_cells z sheets name = Some o -> safe o.
+Proof.
+  intros z sheets name o H. unfold worksheet_merge_cells in H.
+  destruct (sheet_path sheets name) as [path|]; [|discriminate].
+  destruct (zip_find z path) as [evs|]; [|discriminate].
+  inversion H; subst. apply find_merge_cells_safe.
+Qed.
+
+(* xlsx tables: unescaping, the attribute loops and the geometry arithmetic *)
+Lemma resolve_entity_safe : forall pat, safe (resolve_entity pat).
+Proof.
+  intros [|c num]; cbn [resolve_entity]; [exact I|].
+  destruct (c =? ch_hash); [destruct (parse_char_ref num); exact I|].
+  repeat match goal with |- context [if ?b then _ else _] => destruct b end; exact I.
+Qed.
+
+Lemma unesc_go_safe : forall s pend, safe (unesc_go s pend).
+Proof.
+  induction s as [|c s IH]; intros pend; cbn [unesc_go]; [destruct pend; exact I|].
+  destruct pend as [p|].
+  - destruct (c =? ch_semi).
+    + apply safe_bind; [apply resolve_entity_safe|]. intros e.
+      apply safe_bind; [apply IH|]. intros r. exact I.
+    + destruct (c =? ch_amp); [exact I|apply IH].
+  - destruct (c =? ch_amp); [apply IH|].
+    apply safe_bind; [apply IH|]. intros r. exact I.
+Qed.
+
+Theorem unescape_safe : forall s, safe (unescape s).
+Proof. intros s. apply unesc_go_safe. Qed.
+
+Lemma parse_u32_safe : forall s, safe (parse_u32 s).
+Proof.
+  intros s. unfold parse_u32.
+  destruct (match s with [] => s | c :: t => if c =? 43 then t else s end) as [|x ds]; [exact I|].
+  destruct (forallb is_digit (x :: ds)); [|exact I].
+  destruct (undec (x :: ds) <=? U32MAX); exact I.
+Qed.
+
+Lemma table_attr_safe : forall m kv, safe (table_attr m kv).
+Proof.
+  intros m kv. unfold table_attr.
+  destruct (str_eqb (fst kv) s_displayName).
+  { apply safe_bind; [apply unescape_safe|]. intros u. exact I. }
+  destruct (str_eqb (fst kv) s_ref); [exact I|].
+  destruct (str_eqb (fst kv) s_headerRowCount).
+  { apply safe_bind; [apply parse_u32_safe|]. intros n. exact I. }
+  destruct (str_eqb (fst kv) s_insertRow); [exact I|].
+  destruct (str_eqb (fst kv) s_totalsRowCount); [|exact I].
+  apply safe_bind; [apply parse_u32_safe|]. intros n. exact I.
+Qed.
+
+Lemma table_attrs_safe : forall attrs m, safe (table_attrs m attrs).
+Proof.
+  induction attrs as [|kv attrs IH]; intros m; cbn [table_attrs]; [exact I|].
+  apply safe_bind; [apply table_attr_safe|]. intros m'. apply IH.
+Qed.
+
+Lemma column_names_safe : forall attrs, safe (column_names attrs).
+Proof.
+  induction attrs as [|kv attrs IH]; cbn [column_names]; [exact I|].
+  destruct (str_eqb (fst kv) s_name); [|exact IH].
+  apply safe_bind; [apply unescape_safe|]. intros u.
+  apply safe_bind; [exact IH|]. intros r. exact I.
+Qed.
+
+Theorem scan_table_safe : forall evs m cols, safe (scan_table evs m cols).
+Proof.
+  induction evs as [|e evs IH]; intros m cols; cbn [scan_table]; [exact I|].
+  destruct e as [n attrs|n|t|t]; try apply IH.
+  - destruct (str_eqb (local_name n) s_table).
+    { apply safe_bind; [apply table_attrs_safe|]. intros m'. apply IH. }
+    destruct (str_eqb (local_name n) s_tableColumn); [|apply IH].
+    apply safe_bind; [apply column_names_safe|]. intros cs. apply IH.
+  - destruct (str_eqb (local_name n) s_table); [exact I|apply IH].
+Qed.
+
+(* the header / totals / insert-row arithmetic: every u32 operation is checked *)
+Theorem table_dims_safe : forall m, safe (table_dims m).
+Proof.
+  intros m. unfold table_dims. apply safe_bind; [apply get_dimension_h_safe|].
+  intros [[sr sc] [er ec]].
+  apply safe_bind.
+  { destruct (tm_header m =? 0); [exact I|]. destruct (sr + tm_header m <=? U32MAX); exact I. }
+  intros sr1. apply safe_bind.
+  { destruct (tm_totals m + (if tm_insert m then 1 else 0) <=? U32MAX); exact I. }
+  intros below. destruct (below <=? er); exact I.
+Qed.
+
+Lemma resolve_target_safe : forall base target, safe (resolve_target base target).
+Proof.
+  intros base target. unfold resolve_target.
+  destruct (starts_with s_dotdotslash target); [destruct (rfind_slash base); exact I|].
+  destruct target as [|c rest]; [exact I|]. destruct (c =? ch_slash); exact I.
+Qed.
+
+Theorem scan_rels_safe : forall base evs, safe (scan_rels base evs).
+Proof.
+  intros base. induction evs as [|e evs IH]; cbn [scan_rels]; [exact I|].
+  destruct e as [n attrs|n|t|t]; try exact IH.
+  - destruct (str_eqb (local_name n) s_Relationship); [|exact IH].
+    destruct (fold_left rel_attr attrs ([], false)) as [target table_type].
+    destruct table_type; [|exact IH].
+    apply safe_bind; [apply resolve_target_safe|]. intros loc.
+    apply safe_bind; [exact IH|]. intros rest. exact I.
+  - destruct (str_eqb (local_name n) s_Relationships); [exact I|exact IH].
+Qed.
+
+Lemma read_table_files_safe : forall z name files, safe (read_table_files z name files).
+Proof.
+  intros z name. induction files as [|f files IH]; cbn [read_table_files]; [exact I|].
+  destruct (zip_find z f) as [evs|]; [|exact IH].
+  apply safe_bind; [apply scan_table_safe|]. intros mc.
+  apply safe_bind; [apply table_dims_safe|]. intros d.
+  apply safe_bind; [exact IH|]. intros rest. exact I.
+Qed.
+
+(* load_tables: the one panic site left is `sheet_path.rfind('/').expect("should be in a
+   folder")`; read_workbook only produces paths that start with "xl/" *)
+Theorem read_table_metadata_safe : forall z sheets,
+  Forall (fun sp => rfind_slash (snd sp) <> None) sheets -> safe (read_table_metadata z sheets).
+Proof.
+  intros z. induction sheets as [|[name path] sheets IH]; intros H; cbn [read_table_metadata]; [exact I|].
+  inversion H as [|? ? H1 H2]; subst. cbn [snd] in H1.
+  unfold rels_location. destruct (rfind_slash path) as [i|]; [|contradiction]. cbn [obind fst snd].
+  destruct (zip_find z _) as [evs|]; [|apply IH; exact H2].
+  apply safe_bind; [apply scan_rels_safe|]. intros files.
+  apply safe_bind; [apply read_table_files_safe|]. intros ts.
+  apply safe_bind; [apply IH; exact H2|]. intros rest. exact I.
+Qed.
+
+Example rels_location_still_panics : rels_location [115; 104; 101; 101; 116] = Panic.
+Proof. reflexivity. Qed.
 
 (* ================================================================== boolean domains *)
 Lemma table_domb_ok : forall t, table_domb t = true -> table_dom t.
@@ -1740,6 +2116,15 @@ Example fixed_empty_data :
     Ok (x_T1, x_S1, [x_a; x_b], empty).
 Proof. repeat split; vm_compute; reflexivity. Qed.
 
+Example ex_no_panic_nonvacuous :
+  Forall (fun sp => rfind_slash (snd sp) <> None) (sheets_of ex_wb) /\
+  parse_merge_cells [1; 0; 0; 0; 1; 0; 0; 0; 1] = Err E_LEN /\
+  get_dimension_h [66; 50; 58; 65; 49] = Ok ((1, 1), (0, 0)).
+Proof.
+  split; [|split; vm_compute; reflexivity].
+  repeat constructor. vm_compute. discriminate.
+Qed.
+
 (* outside the property's domain, recorded because the two access paths disagree: a reference
    with $ signs makes load_merged_regions fail while worksheet_merge_cells silently answers
    "no merged regions"; a reversed reference panics under overflow checks *)
@@ -1749,8 +2134,9 @@ Lemma dollar_ref_paths_disagree :
   scan_merge_regions evs = Err E_ALPHANUMERIC /\ find_merge_cells evs = Ok [].
 Proof. split; vm_compute; reflexivity. Qed.
 
-Lemma reversed_ref_panics :
-  scan_merge_regions [EStart s_mergeCell [(s_ref, [66; 50; 58; 65; 49])]] = Panic.
+(* a reversed reference is reported as written (717a5d9; it used to panic under overflow checks) *)
+Lemma reversed_ref_as_written :
+  scan_merge_regions [EStart s_mergeCell [(s_ref, [66; 50; 58; 65; 49])]] = Ok [((1, 1), (0, 0))].
 Proof. vm_compute. reflexivity. Qed.
 
 (* xls non-vacuity: two sheets, several MergeCells records, regions up to IV65536 *)
